@@ -32,6 +32,13 @@ func tabID(name string) enode.ID {
 		id[0], id[31] = 0xc0, 0x0b
 	case name == "X":
 		id[0], id[31] = 0xa0, 0x0c
+	case name == "P":
+		id[0], id[31] = 0x90, 0x0d
+	case name == "Q":
+		id[0], id[31] = 0x98, 0x0e
+	case name == "R":
+		id[0], id[31] = 0x88, 0x0f
+	case name == "S": // the local id itself
 	case name == "C": // 255
 		id[0], id[31] = 0x40, 0x0c
 	case name == "D": // catch-all
@@ -66,6 +73,8 @@ var tabEndpoints = map[string]tabEndpoint{
 	"b": {net.IP{52, 1, 1, 11}, 30303},   // same /24, other ip
 	"c": {net.IP{52, 1, 1, 10}, 30304},   // same ip, other port
 	"d": {net.IP{52, 2, 2, 10}, 30303},   // other /24
+	"e": {net.IP{52, 2, 2, 11}, 30303},   // other /24, second address
+	"f": {net.IP{52, 2, 2, 12}, 30303},   // other /24, third address
 	"l": {net.IP{192, 168, 1, 5}, 30303}, // LAN: exempt from the IP limits
 }
 
@@ -129,7 +138,7 @@ func (t *tabEnv) name(id enode.ID) string {
 
 func newTabEnv() *tabEnv {
 	t := &tabEnv{pending: map[enode.ID]*pingReq{}, enrAns: map[enode.ID]*enode.Node{}, names: map[enode.ID]string{}, loopEnd: make(chan struct{})}
-	for _, n := range []string{"A", "B", "X", "C", "D", "E", "H", "I"} {
+	for _, n := range []string{"A", "B", "X", "C", "D", "E", "H", "I", "P", "Q", "R", "S"} {
 		t.names[tabID(n)] = n
 	}
 	for k := 0; k < 40; k++ {
